@@ -4,7 +4,7 @@ Exploration = depth-first over *decision sequences*: a path is re-executed from 
 prefix of decisions; at the first new decision point every feasible alternative (z3 check of path condition AND
 branch condition) is pushed on the worklist. No state copying, so Python-side state (cells, logs) needs no snapshots.
 """
-import re, sys, time
+import os, re, sys, time
 import z3
 from values import *
 from mirparse import split_top, find_matching
@@ -82,6 +82,35 @@ def split_path(s):
         else:
             out.append((seg, None))
     return out
+
+
+def _ite_leaves(x, limit=32):
+    """number of leaves if x is an if-then-else tree over numerals, else None"""
+    if z3.is_app_of(x, z3.Z3_OP_ITE):
+        a = _ite_leaves(x.arg(1), limit)
+        b = _ite_leaves(x.arg(2), limit)
+        if a is None or b is None or a + b > limit:
+            return None
+        return a + b
+    if z3.is_fp_value(x) or z3.is_bv_value(x):
+        return 1
+    return None
+
+
+def lift_ite(f, x):
+    """apply f under an if-then-else tree with numeral leaves (constant folding per leaf): keeps grids of concrete
+    floats out of the bit-blaster"""
+    if z3.is_app_of(x, z3.Z3_OP_ITE):
+        return z3.If(x.arg(0), lift_ite(f, x.arg(1)), lift_ite(f, x.arg(2)))
+    return z3.simplify(f(x))
+
+
+def fp_bin(f, l, r):
+    if z3.is_fp_value(r) and _ite_leaves(l) not in (None, 1):
+        return lift_ite(lambda a: f(a, r), l)
+    if z3.is_fp_value(l) and _ite_leaves(r) not in (None, 1):
+        return lift_ite(lambda b: f(l, b), r)
+    return f(l, r)
 
 
 class Callee:
@@ -256,6 +285,7 @@ class VM:
         self.prefix = list(prefix)
         self.pos = 0
         self.pc = []
+        # always the default (all-theories) solver: a restricted logic silently mis-handles FP terms
         self.solver = z3.Solver()
         self.solver.set("timeout", self.timeout_ms)
         self.fresh_n = 0
@@ -606,7 +636,7 @@ class VM:
             if a['op'] == 'Neg':
                 if isinstance(x, I):
                     return I(-x.e, x.signed)
-                return z3.fpNeg(x)
+                return f_un('neg', x)
             raise Unmodelled("unop " + a['op'])
         if k == 'discriminant':
             v = self.read_place(frame, a['place'])
@@ -708,29 +738,17 @@ class VM:
             if op == 'Cmp':
                 raise Unmodelled("three-way Cmp")
             raise Unmodelled("int binop " + op)
-        if z3.is_fp(l) and z3.is_fp(r):
-            if op == 'Add':
-                return z3.fpAdd(RNE, l, r)
-            if op == 'Sub':
-                return z3.fpSub(RNE, l, r)
-            if op == 'Mul':
-                return z3.fpMul(RNE, l, r)
-            if op == 'Div':
-                return z3.fpDiv(RNE, l, r)
+        if isfp(l) and isfp(r):
+            arith = {'Add': 'add', 'Sub': 'sub', 'Mul': 'mul', 'Div': 'div'}
+            rels = {'Eq': 'eq', 'Ne': 'ne', 'Lt': 'lt', 'Le': 'le', 'Gt': 'gt', 'Ge': 'ge'}
+            if op in arith:
+                if both_fset(l, r):
+                    return fs_bin(arith[op], l, r)   # exact grid floats: folded per value
+                return fp_bin(Z3_ARITH[arith[op]], fp_plain(l), fp_plain(r))
+            if op in rels:
+                return f_rel(rels[op], l, r)
             if op == 'Rem':
-                return z3.fpRem(l, r)
-            if op == 'Eq':
-                return z3.fpEQ(l, r)
-            if op == 'Ne':
-                return z3.Not(z3.fpEQ(l, r))
-            if op == 'Lt':
-                return z3.fpLT(l, r)
-            if op == 'Le':
-                return z3.fpLEQ(l, r)
-            if op == 'Gt':
-                return z3.fpGT(l, r)
-            if op == 'Ge':
-                return z3.fpGEQ(l, r)
+                return z3.fpRem(fp_plain(l), fp_plain(r))
             raise Unmodelled("float binop " + op)
         if z3.is_bool(l) and z3.is_bool(r):
             if op == 'Eq':
@@ -766,12 +784,23 @@ class VM:
                 return I(e, signed)
             if z3.is_bool(v):
                 return I(z3.If(v, z3.BitVecVal(1, bits), z3.BitVecVal(0, bits)), signed)
+        if isinstance(v, FSet):
+            if kind == 'FloatToFloat':
+                return f_to(v, F32 if ty == 'f32' else F64)
+            if kind == 'FloatToInt':
+                e = None
+                for val, c in reversed(v.cases):
+                    iv = z3.simplify(self.cast(np_to_z3(val, v.sort), ty, kind).e)
+                    e = iv if e is None else z3.If(c, iv, e)
+                return I(e, INT_TYPES[ty][1])
         if kind == 'IntToFloat':
             sort = F32 if ty == 'f32' else F64
             return z3.fpSignedToFP(RNE, v.e, sort) if v.signed else z3.fpUnsignedToFP(RNE, v.e, sort)
         if kind == 'FloatToFloat':
             sort = F32 if ty == 'f32' else F64
             return z3.fpFPToFP(RNE, v, sort)
+        if kind == 'FloatToInt' and _ite_leaves(v) not in (None, 1):
+            return I(lift_ite(lambda a: self.cast(a, ty, kind).e, v), INT_TYPES[ty][1])
         if kind == 'FloatToInt':
             bits, signed = INT_TYPES[ty]
             # Rust `as`: saturating, NaN -> 0
